@@ -65,6 +65,7 @@ func ChildMain(args []string) {
 	hx.InitIO()
 	run := evid.NewPartialRun(prop, tier, seed)
 	run.SaturateAt = 6
+	InstallObserveHook(run)
 	// flush what has been found so far every second: if this process dies or is
 	// stopped by the parent's watchdog, the violations already witnessed survive
 	flush := func(final bool) {
